@@ -920,18 +920,26 @@ func (p *Parser) parseQualifiedName() (string, error) {
 	}
 	name := p.currentToken.Literal
 	p.advance()
+	if !p.isType(models.TokenTypePeriod) {
+		return name, nil
+	}
 
-	// Check for schema.table or db.schema.table
+	// schema.table, db.schema.table, ...: the parts are collected in a builder so that a
+	// name of n parts costs O(total length), not O(n * total length) as repeated string
+	// concatenation would
+	var sb strings.Builder
+	sb.WriteString(name)
 	for p.isType(models.TokenTypePeriod) {
 		p.advance() // Consume .
 		if !p.isIdentifier() && !p.isNonReservedKeyword() {
 			return "", p.expectedError("identifier after .")
 		}
-		name = name + "." + p.currentToken.Literal
+		sb.WriteByte('.')
+		sb.WriteString(p.currentToken.Literal)
 		p.advance()
 	}
 
-	return name, nil
+	return sb.String(), nil
 }
 
 // Accepts IDENT or non-reserved keywords that can be used as table names
